@@ -16,7 +16,7 @@ from .clocksim import GenNLS, nls_params, nls_ref
 
 NAME = "filtersim"
 SIM_UNIT = "filter steps"
-BUDGET = {"quick": {"runs": 1200, "wall": 80}, "thorough": {"runs": 60000, "wall": 1500}}
+BUDGET = {"quick": {"runs": 6000, "wall": 80}, "thorough": {"runs": 60000, "wall": 1500}}
 SHRINK_LISTS = ("ops",)
 PROBES = {"C13": ["prior-correlated", "prior-diagonal", "step>=10", "time-indexed", "ukf:k<0", "ukf:k>=0",
                   "ukf:default-k", "ukf:k-varies", "ekf:nonlinear", "pf:judged", "dims>=4", "spread>=1e4"]}
